@@ -94,7 +94,8 @@ deriving DecidableEq, Repr
 inductive SeqKind where
   | vec                  -- Vec / Box<[T]> / Arc<[T]> / &[T]: bulk-capable, 1 000 000 guard on the regular path
   | plain                -- VecDeque, BinaryHeap, SmallVec, IndexSet: element-wise, no guard
-  | set                  -- HashSet, BTreeSet: as `plain`; iteration order is not part of the value
+  | set                  -- HashSet, BTreeSet: as `plain`; iteration order is not part of the value, duplicates collapse
+  | bag                  -- BinaryHeap: as `plain`; iteration order is not part of the value
   | arrayVec (cap : Nat) -- ArrayVec<T, cap>: bulk-capable, capacity check
 deriving DecidableEq, Repr
 
@@ -284,7 +285,7 @@ end
 def seqMode (k : SeqKind) (bulk : Option (Nat × Nat)) : SeqMode :=
   match k with
   | .vec => { limit := bulk.isNone, bulk := bulk, cap := none }
-  | .plain | .set => { limit := false, bulk := none, cap := none }
+  | .plain | .set | .bag => { limit := false, bulk := none, cap := none }
   | .arrayVec c => { limit := false, bulk := bulk, cap := some c }
 
 def bulkInfo (t : Ty) (v : Nat) : Option (Nat × Nat) :=
@@ -300,7 +301,7 @@ mutual
 def wireOf : Ty → Nat → W
   | .prim p, _ => p.wire
   | .str cap, _ => .str cap
-  | .seq k t, v => .seq (seqMode k (match k with | .plain | .set => none | _ => bulkInfo t v)) (wireOf t v)
+  | .seq k t, v => .seq (seqMode k (match k with | .plain | .set | .bag => none | _ => bulkInfo t v)) (wireOf t v)
   | .map k x, v => .seq {} (.prod (.cons (wireOf k v) (.cons (wireOf x v) .nil)))
   | .opt t, v => .opt (wireOf t v)
   | .res a b, v => .res (wireOf a v) (wireOf b v)
@@ -339,7 +340,7 @@ mutual
 def saveWire : Ty → Nat → W
   | .prim p, _ => p.wire
   | .str cap, _ => .str cap
-  | .seq k t, v => .seq (seqMode k (match k with | .plain | .set => none | _ => bulkInfo t v)) (saveWire t v)
+  | .seq k t, v => .seq (seqMode k (match k with | .plain | .set | .bag => none | _ => bulkInfo t v)) (saveWire t v)
   | .map k x, v => .seq {} (.prod (.cons (saveWire k v) (.cons (saveWire x v) .nil)))
   | .opt t, v => .opt (saveWire t v)
   | .res a b, v => .res (saveWire a v) (saveWire b v)
@@ -379,6 +380,9 @@ abbrev UserFns := Nat → V → V
 
 def unitV : V := .tup .nil
 
+/-- `Duration::deserialize`: seconds are truncated to 64 bit (`as u64`) -/
+def durCanon (n : Nat) : Nat := ((n / nanosPerSec) % 2^64) * nanosPerSec + n % nanosPerSec
+
 def mapVL (f : V → V) : VL → VL
   | .nil => .nil
   | .cons x xs => .cons (f x) (mapVL f xs)
@@ -402,6 +406,7 @@ def fill (env : UserFns) : Ty → Nat → V → V
   | .arr _ t, v, .tup l => .tup (mapVL (fill env t v) l)
   | .struct _ _ _ fs, v, .tup l => .tup (fillFields env fs v l)
   | .enum _ _ _ vs, v, .alt i (.tup l) => .alt i (.tup (fillVariant env vs v i l))
+  | .duration, _, .num n => .num (durCanon n)
   | _, _, x => x
 def fillL (env : UserFns) : TyL → Nat → VL → VL
   | .cons t ts, v, .cons x xs => .cons (fill env t v x) (fillL env ts v xs)
